@@ -38,8 +38,8 @@ ASSUMPTIONS = [
     "used, as a lower bound, and only against fully evaluated points",
     "vector objectives are ranked by their Euclidean norm (what the code documents); reported objective may be the "
     "recorded vector or its norm",
-    "ties may be resolved either way; a reported feasible point without usable objective while another feasible point "
-    "has one is only recorded as an observation (the statement does not rank it)",
+    "ties may be resolved either way; a missing or NaN objective is not an objective value and ranks after every value: "
+    "a feasible point without usable objective is acceptable only if no feasible point has one",
     "Database (storage) is trusted; it is not the module under judgement",
 ]
 ANCHORS = [
@@ -59,12 +59,14 @@ MIN_COUNTERS = {
     "quick": {"patterns_enumerated": 40000, "optimum_judged": 70000, "result_judged": 60000,
               "branch_feasible": 30000, "branch_infeasible": 35000, "selection_nontrivial": 45000,
               "infeasible_partial_histories": 18000, "feasible_without_usable_objective": 9000,
+              "feasible_nan_objective_before_finite": 550, "feasible_missing_objective_before_finite": 2300,
               "feasibility_checks_full_points": 200000, "random_histories": 48000, "pareto_fronts_judged": 1800,
               "live_store_events_judged": 900, "maximize_cases": 35000, "original_objective_sign_restored": 13000},
     # thorough claims the complete pattern space: every one of the 746 496 patterns must have been judged
     "thorough": {"patterns_enumerated": 746496, "optimum_judged": 850000, "result_judged": 700000,
                  "branch_feasible": 350000, "branch_infeasible": 400000, "selection_nontrivial": 500000,
                  "infeasible_partial_histories": 200000, "feasible_without_usable_objective": 100000,
+                 "feasible_nan_objective_before_finite": 1, "feasible_missing_objective_before_finite": 1,
                  "feasibility_checks_full_points": 2000000, "random_histories": 480000, "pareto_fronts_judged": 18000,
                  "live_store_events_judged": 5000, "maximize_cases": 400000, "original_objective_sign_restored": 150000},
 }
@@ -374,6 +376,16 @@ def judge(prob, hist, constraints, flags, rep, case, *, count=True, multi=False)
             rep.count("selection_nontrivial")
         if not flags["minimize"]:
             rep.count("maximize_cases")
+        # a feasible point without comparable objective recorded *before* a feasible point with a finite one
+        first_usable = min(an.usable) if an.usable else None
+        if first_usable is not None:
+            early = [i for i in an.incomparable if i < first_usable]
+            if any(hist[i]["f"] is not None for i in early):
+                rep.count("feasible_nan_objective_before_finite")
+            if any(hist[i]["f"] is None for i in early):
+                rep.count("feasible_missing_objective_before_finite")
+            if an.incomparable:
+                rep.count("feasible_incomparable_and_finite_objectives")
 
     def viol(sig, clause, observed, expected, msg=""):
         rep.violation(sig, clause, case, observed=observed, expected=expected, msg=msg)
@@ -545,8 +557,15 @@ def db_order(case, n):
 def _judge_selection(an, r, hist, constraints, tol_i, tol_e, feasible_branch, mode, partial, viol, rep, who, prob):
     if r in an.acceptable:
         return
-    if r in an.tolerated:
-        rep.observe(f"{who}:feasible-point-without-usable-objective-reported-although-another-has-one", {"point": r})
+    if r in an.incomparable:
+        # feasible, but its objective is missing or NaN while a feasible point with a finite objective exists: a
+        # missing/NaN objective is not an objective value and ranks after every value (see notes/C04.md)
+        kind = "missing" if hist[r]["f"] is None else "nan"
+        viol(f"C04:{who}:best-feasible:reported-point-has-no-comparable-objective:{kind}",
+             "no feasible recorded point with an objective value has a strictly smaller standardised objective",
+             {"point": r, "recorded_standardized_objective": hist[r]["f"]},
+             {"acceptable_points": sorted(an.acceptable), "best_standardized_objective": an.best_key},
+             "a feasible point with a finite objective is recorded; the reported feasible point has none")
         return
     if feasible_branch:
         if not an.feasible[r]:
@@ -820,6 +839,18 @@ def directed_cases():
     out.append(_hc(one, [_pt([1.0], nan, {"c": [-1.0]}), _pt([2.0], 3.0, {"c": [2.0]})]))
     out.append(_hc([], [_pt([1.0], nan, {}), _pt([2.0], nan, {})]))  # unconstrained, all-NaN objective
     out.append(_hc(one, [_pt([1.0], nan, {"c": [-1.0]}), _pt([2.0], 3.0, {"c": [-2.0]})]))  # one usable: must win
+    # (seeded regression C04_1) the first feasible point has a NaN objective, later feasible points finite ones
+    for mini, std in ((True, True), (False, True), (False, False)):
+        out.append(_hc([["g", "ineq", 1]], [_pt([0.0], -5.0, {"g": [1.0]}, f_as="array"),
+                                            _pt([1.0], nan, {"g": [-1.0]}, f_as="array"),
+                                            _pt([2.0], 1.0, {"g": [-2.0]}, f_as="array"),
+                                            _pt([3.0], 4.0, {"g": [-3.0]}, f_as="array")], minimize=mini, standardized=std,
+                       tol_ineq=0.0))
+    out.append(_hc(one, [_pt([1.0], nan, {"c": [-1.0]}), _pt([2.0], -7.0, {"c": [-1.0]}), _pt([3.0], nan, {"c": [-1.0]})]))
+    out.append(_hc([], [_pt([1.0], nan, {}), _pt([2.0], 2.0, {})]))  # unconstrained
+    out.append(_hc(one, [_pt([1.0], None, {"c": [-1.0]}), _pt([2.0], nan, {"c": [-1.0]}), _pt([3.0], 5.0, {"c": [-1.0]})]))
+    out.append(_hc(one, [_pt([1.0], [nan, 0.0], {"c": [-1.0]}), _pt([2.0], [3.0, 4.0], {"c": [-1.0]}),
+                         _pt([3.0], [1.0, 1.0], {"c": [-1.0]})], obj_dim=2))  # NaN component in a vector objective
     # maximisation, standardised or not; ties
     for std in (True, False):
         out.append(_hc(one, [_pt([1.0], -1.0, {"c": [-1.0]}), _pt([2.0], -4.0, {"c": [-1.0]}),
